@@ -261,6 +261,11 @@ def identity_laws(run: core.Run) -> None:
         g1 = trace_ids(doc, tmp, []).get("run_space_launch_id")
         g2 = trace_ids(doc, tmp, []).get("run_space_launch_id")
         run.evaluations += 5
+        a2 = trace_ids(doc, tmp, ["--run-space-idempotency-key", "K1", "--run-space-attempt", "2"])
+        run.evaluations += 1
+        if a2.get("run_space_launch_id") != a or a2.get("run_space_attempt") != 2:
+            run.violation("launch-id:idempotency-attempt", f"a retry (attempt 2) with the same idempotency key must carry the same launch id and attempt 2: "
+                          f"attempt 1 -> {a}, attempt 2 -> {a2.get('run_space_launch_id')} (attempt field {a2.get('run_space_attempt')})", {})
         if not a or a != b:
             run.violation("launch-id:idempotency-not-reproducible", f"same idempotency key gives launch ids {a} / {b}", {})
         if a == c:
@@ -285,6 +290,20 @@ def identity_laws(run: core.Run) -> None:
             run.violation("inputs-id:mtime-sensitive", f"inputs id changed although only the file's mtime changed: {i1.get('run_space_inputs_id')} / {i2.get('run_space_inputs_id')}", {})
         if i3.get("run_space_inputs_id") == i1.get("run_space_inputs_id"):
             run.violation("inputs-id:content-blind", "inputs id did not change when the referenced file's content changed", {})
+        # a relative source path is relative to the pipeline file, wherever the command is started from
+        other = tmp / "elsewhere"
+        other.mkdir(exist_ok=True)
+        (other / "vals.csv").write_text("factor\n9.0\n")       # an unrelated file of the same name under the other cwd
+        shutil.rmtree(tmp / "trace", ignore_errors=True)
+        (tmp / "p.yaml").write_text(yaml.safe_dump(doc, sort_keys=False))
+        code, _o, err = run_cli(["run", str(tmp / "p.yaml"), "--context", "value=1.5"], other)
+        ls = [r for r in read_trace(tmp) if r["record_type"] == "run_space_start"]
+        run.evaluations += 1
+        if code != 0 or not ls or ls[0].get("run_space_inputs_id") != i3.get("run_space_inputs_id") \
+                or ls[0].get("run_space_planned_run_count") != 3:
+            run.violation("inputs-id:cwd-dependent", f"started from another working directory the launch exits {code} / inputs id "
+                          f"{ls[0].get('run_space_inputs_id') if ls else None} (planned {ls[0].get('run_space_planned_run_count') if ls else None}); "
+                          f"from the pipeline's directory: inputs id {i3.get('run_space_inputs_id')}, 3 runs; stderr {err[-160:]!r}", {})
         if i3.get("run_space_spec_id") != i1.get("run_space_spec_id"):
             run.violation("spec-id:depends-on-file-content", "spec id changed with the referenced file's content", {})
     finally:
